@@ -29,6 +29,7 @@ func runC19(c *Ctx) {
 	c.typeAgreement("C19.1")
 	c.apiVersionFixup()
 	c.annotationKeys()
+	c.helpersKeepNothing()
 	c.defaultBeforeSend()
 	c.hijackWrappers()
 	c.defaulterDiscipline()
@@ -1289,4 +1290,76 @@ func (c *Ctx) copiesEveryAnnotation(g *types.Func) bool {
 		return true
 	})
 	return copied && others == 0
+}
+
+// helpersKeepNothing: "writing a set and reading it back yields the same set", whoever else has read the same annotation
+// text before: the helpers answer from the object they are given and keep nothing of their own between calls -- no
+// package-level sync/container value is used and no package-level map or slice is written in the helper package.
+func (c *Ctx) helpersKeepNothing() {
+	const rule = "C19.3-helpers-keep-nothing-between-calls"
+	n := 0
+	for _, fi := range c.P.Funcs() {
+		if fi.Pkg.PkgPath != load.HelperPkg {
+			continue
+		}
+		n++
+		info := fi.Pkg.TypesInfo
+		pkgVar := func(e ast.Expr) *types.Var {
+			e = ast.Unparen(e)
+			if u, ok := e.(*ast.UnaryExpr); ok && u.Op == token.AND {
+				e = ast.Unparen(u.X)
+			}
+			id, ok := e.(*ast.Ident)
+			if !ok {
+				return nil
+			}
+			v, _ := info.Uses[id].(*types.Var)
+			if v == nil || v.Pkg() == nil || v.Parent() != v.Pkg().Scope() || v.Pkg().Path() != load.HelperPkg {
+				return nil
+			}
+			return v
+		}
+		ast.Inspect(fi.Decl.Body, func(x ast.Node) bool {
+			switch y := x.(type) {
+			case *ast.CallExpr:
+				if sel, ok := y.Fun.(*ast.SelectorExpr); ok {
+					if v := pkgVar(sel.X); v != nil {
+						t := v.Type()
+						if pt, ok := t.Underlying().(*types.Pointer); ok {
+							t = pt.Elem()
+						}
+						if nt, ok := types.Unalias(t).(*types.Named); ok && nt.Obj().Pkg() != nil {
+							switch nt.Obj().Pkg().Path() {
+							case "sync", "sync/atomic", "container/list", "container/ring", "k8s.io/client-go/tools/cache", "k8s.io/apimachinery/pkg/util/cache":
+								c.Bad(rule, fi.Obj.Name()+": "+types.ExprString(y.Fun), y.Pos(), "a package-level "+nt.Obj().Pkg().Name()+"."+nt.Obj().Name()+" is used by a helper: what one call leaves there the next call finds -- a set handed out earlier and changed by its receiver is what a later reader of the same annotation text gets")
+							}
+						}
+					}
+				}
+				if id, ok := y.Fun.(*ast.Ident); ok && id.Name == "delete" && len(y.Args) == 2 {
+					if v := pkgVar(y.Args[0]); v != nil {
+						c.Bad(rule, fi.Obj.Name()+": "+types.ExprString(y), y.Pos(), "an entry of a package-level map is deleted by a helper")
+					}
+				}
+			case *ast.AssignStmt:
+				for _, l := range y.Lhs {
+					if ix, ok := ast.Unparen(l).(*ast.IndexExpr); ok {
+						if v := pkgVar(ix.X); v != nil {
+							c.Bad(rule, fi.Obj.Name()+": "+types.ExprString(l), l.Pos(), "an entry of a package-level map or slice is written by a helper")
+						}
+					}
+					if y.Tok != token.DEFINE {
+						if v := pkgVar(l); v != nil {
+							c.Bad(rule, fi.Obj.Name()+": "+types.ExprString(l), l.Pos(), "a package-level variable is written by a helper")
+						}
+					}
+				}
+			}
+			return true
+		})
+	}
+	if n > 0 {
+		c.OK(rule, "helper package", 0, fmt.Sprintf("%d functions looked at", n))
+	}
+	c.Floor(rule+"-functions", n, 10)
 }
